@@ -47,6 +47,39 @@ Theorem C20_conflict_example :
 Proof. exact conflict_example. Qed.
 Print Assumptions C20_conflict_example.
 
+(* `pna split x.part1.pna --out-dir o` whose whole output is ONE part: the part is o/x.part1.pna, the very name the
+   finished archive gets (outs = [head; head]).  A run into a clean place — nothing at that path, the output directory
+   can be made — exits 0 and leaves the part there (fix 067bc08d: no refusal without a pre-existing object); the three
+   theorems above quantify over every command and hold for this one as they stand (its third clause is C20_no_clobber) *)
+Theorem C20_selfnamed_split_clean : forall head fs0, head <> [] -> ~ existed fs0 head ->
+  (exists s1, mkdirs fs0 (parent head) = Some s1) ->
+  let c := {| kind := Split; overwrite := false; outs := [(OFile, head); (OFile, head)] |} in
+  snd (run c fs0) = 0 /\ node (fst (run c fs0)) head = Some (File new_content) /\
+  (forall p, existed fs0 p -> node (fst (run c fs0)) p = node fs0 p).
+Proof. exact split_selfnamed_clean. Qed.
+Check C20_selfnamed_split_clean : forall head fs0, head <> [] -> ~ existed fs0 head ->
+  (exists s1, mkdirs fs0 (parent head) = Some s1) ->
+  let c := {| kind := Split; overwrite := false; outs := [(OFile, head); (OFile, head)] |} in
+  snd (run c fs0) = 0 /\ node (fst (run c fs0)) head = Some (File new_content) /\
+  (forall p, existed fs0 p -> node (fst (run c fs0)) p = node fs0 p).
+Print Assumptions C20_selfnamed_split_clean.
+
+(* the code between 36c3adfe and 067bc08d (finish_parts_orig: the existence test in front of the rename also when the
+   single part IS the archive path): the empty file system, no object at any output path — and exit 1, the test saw the
+   part the run itself had written; the repaired code exits 0 *)
+Theorem C20_selfnamed_split_unrepaired_refuted :
+  sn_head <> [] /\ ~ existed [] sn_head /\ (exists s1, mkdirs [] (parent sn_head) = Some s1) /\
+  (forall p, In p (outputs {| kind := Split; overwrite := false; outs := [(OFile, sn_head); (OFile, sn_head)] |}) -> ~ existed [] p) /\
+  snd (run_split_orig false sn_head [sn_head] []) = 1 /\
+  snd (run_split false sn_head [sn_head] []) = 0.
+Proof. exact split_selfnamed_unrepaired. Qed.
+Check C20_selfnamed_split_unrepaired_refuted :
+  sn_head <> [] /\ ~ existed [] sn_head /\ (exists s1, mkdirs [] (parent sn_head) = Some s1) /\
+  (forall p, In p (outputs {| kind := Split; overwrite := false; outs := [(OFile, sn_head); (OFile, sn_head)] |}) -> ~ existed [] p) /\
+  snd (run_split_orig false sn_head [sn_head] []) = 1 /\
+  snd (run_split false sn_head [sn_head] []) = 0.
+Print Assumptions C20_selfnamed_split_unrepaired_refuted.
+
 (* D23 as it was: only the archive path tested, parts opened with File::create *)
 Theorem C20_unrepaired_clobbers :
   exists head parts fs0 p,
